@@ -113,6 +113,11 @@ class C02(Spec):
         for n in ([6000000, 16777216, 4252779] if tier == "quick" else [3000000, 4252779, 4252780, 6000000, 8388608, 16777216, 33554432]):
             cases.append("QB %d 20000" % n)
         cases.append("QB 6000000 20000 k")
+        # a scripted raw server with a 4 kB receive buffer (review of the pending-send fix): the body never read until the time-out,
+        # then the client still works (n); an answer before the body has been sent (e) and a 413 + close after 100 kB with a GET
+        # queued behind the POST (c): the next request must not be written into the middle of the body / must be served on a new
+        # connection; 25 time-outs while the socket keeps becoming writable (s)
+        cases += ["QT 4194304 300 n", "QT 6291456 8000 e", "QT 8388608 8000 c", "QT 67108864 20 s"]
         cases += self.c05.gen(rng, tier)[: (200 if tier == "quick" else 3000)]
         return cases
 
@@ -127,6 +132,11 @@ class C02(Spec):
         if impl.startswith(("CRASH", "HANG")):
             return "wire harness %s on %s" % (impl, case[:200])
         t = case.split()
+        if t[0] == "QT":
+            want = {"n": "QT first=R second=F", "e": "QT first=F second=F body=1", "c": "QT first=F second=F", "s": "QT rounds=25 rejected=25"}[t[3]]
+            if impl != want:
+                return "a %s-byte POST to a scripted server (mode %s): %s, expected %s" % (t[1], t[3], impl, want)
+            return None
         if t[0] == "QB":
             want = "QB promise=F answer=%s len=%s content=1" % (pv.hexs(("got " + t[1]).encode()), t[1])
             if impl != want:
@@ -152,7 +162,7 @@ class C02(Spec):
             if len(t) > 6 and any(x.split(":")[0] == pv.hexs(b"Content-Type") for x in t[6][2:].split(",")) and False:
                 return True
             return impl.split("\tparsed=")[0] == model
-        if case.startswith("QB "):
+        if case.startswith(("QB ", "QT ")):
             return True              # decided by the oracle (the body is generated on both sides from its length)
         return impl == model
 
